@@ -11,6 +11,7 @@ proposition and the proof below has to go through again.
 import SqModel.Generated.TransSafe
 import SqModel.Proofs.BridgeTable
 import SqModel.Proofs.SafeCpr
+import SqModel.Proofs.SafeReminder
 
 namespace Sq.Safe
 open Sq Bridge Spec
@@ -129,12 +130,20 @@ theorem clean_squitter_safe (cs : List Char) : T.clean_squitter.safe cs := by
 /-- **`get_message` never traps, on any line**: the gate itself establishes what its later stages need -/
 theorem get_message_safe (cs : List Char) : T.get_message.safe cs := by
   unfold T.get_message.safe
-  refine ⟨clean_squitter_safe cs, ?_, ?_⟩
+  refine ⟨clean_squitter_safe cs, ?_, ?_, ?_⟩
   · split
     · rename_i m hm
       rw [Option.filter_eq_some_iff] at hm
       have hlen : m.length = 14 ∨ m.length = 28 := by simpa using hm.2
       exact get_downlink_format_safe m (by omega) (by omega)
+    · trivial
+  · split
+    · rename_i m hm
+      rw [Option.filter_eq_some_iff] at hm
+      obtain ⟨hm, _⟩ := hm
+      rw [Option.filter_eq_some_iff] at hm
+      have hlen : m.length = 14 ∨ m.length = 28 := by simpa using hm.2
+      exact reminder_safe m (by omega) (by omega)
     · trivial
   · split
     · rename_i m hm
